@@ -27,6 +27,7 @@ class Schema:
     sorts: tuple
     fn: Callable
     trigger: tuple = ()
+    pair_from: tuple = ()      # binary reference schemas: only pairs coming from membership atoms on these functions (name prefixes)
 
 
 @dataclass
